@@ -472,7 +472,15 @@ func (t *sseClientTransport) sendResponseMessage(response interface{}) {
 		return
 	}
 
-	ctx, cancel := context.WithTimeout(context.Background(), 30*time.Second)
+	// The answer is sent on behalf of the SSE stream, so it carries the context values of the
+	// handshake that opened that stream (but not its cancellation).
+	baseCtx := context.Background()
+	t.sseConn.mutex.Lock()
+	if t.sseConn.ctx != nil {
+		baseCtx = icontext.WithoutCancel(t.sseConn.ctx)
+	}
+	t.sseConn.mutex.Unlock()
+	ctx, cancel := context.WithTimeout(baseCtx, 30*time.Second)
 	defer cancel()
 
 	httpReq, err := http.NewRequestWithContext(ctx, http.MethodPost, t.endpoint.String(), bytes.NewReader(respBytes))
@@ -489,6 +497,14 @@ func (t *sseClientTransport) sendResponseMessage(response interface{}) {
 	for key, values := range t.httpHeaders {
 		for _, value := range values {
 			httpReq.Header.Add(key, value)
+		}
+	}
+
+	// Apply HTTP before-request functions.
+	if t.client != nil {
+		if err := t.client.applyHTTPBeforeRequest(ctx, httpReq); err != nil {
+			t.logger.Errorf("HTTP before-request failed for response: %v", err)
+			return
 		}
 	}
 
